@@ -262,6 +262,11 @@ class LoggedModel:
             out = (logl, logp, blob)
         else:
             out = (logl, logp)
+        if self.blobs and getattr(self, 'blob_order', False) and blob['b0'] > 0.5:
+            # the blob dictionary lists its entries in another order for some points (values are paired
+            # with their names, never with their position)
+            blob = {'b1': blob['b1'], 'b0': blob['b0']}
+            out = (logl, logp, blob)
         if rec is not None:
             rec.log.append(('E', dict(kw), out))
         if self.blobs and self.reuse_blob:
